@@ -17,6 +17,7 @@
 -/
 import YashModel.Common.Proto
 import YashModel.Quote.Model
+import YashModel.Quote.Script
 import YashModel.Generated.OptionTable
 namespace YashModel.Quote.Listing
 open YashModel.Quote YashModel.Proto
@@ -334,9 +335,7 @@ def dropNl (l : List Char) : List Char := if l.getLast? = some '\n' then l.dropL
 /-! ### evaluating a listed line (what a fresh shell makes of it) -/
 
 /-- `Lexer::token_id`: a word whose units are all unquoted literals and spell a reserved word -/
-def isKeywordToken (w : List WUnit) : Bool :=
-  w.all (fun u => match u with | .lit _ => true | _ => false)
-    && Generated.QuoteTables.keywords.contains (removeQuotes w)
+def isKeywordToken (w : List WUnit) : Bool := isKeywordWord w
 
 /-- `Parser::array_values` on the text `(` … `)` of an array assignment: the words between the parentheses;
     every `Token(_)` is pushed — a reserved word too, if the arm is `Token(_keyword)`. -/
@@ -468,6 +467,114 @@ def stateVerdict (s : State) : String :=
     "FAIL:O:entry-does-not-reread"
   else "ok"
 
+/-! ### evaluating a whole listing TEXT (what a fresh shell makes of it, line after line) -/
+
+/-- what one command of a listing defines -/
+inductive Effect
+  | declare (builtin : String) (v : Var)            -- `typeset …` / `export …` / `readonly …`
+  | assign (name : List Char) (value : VarVal)      -- `name=value` / `name=(…)`
+  | alias (name value : List Char)                  -- `alias -- name=value`
+  | trap (cond : String) (action : List Char)       -- `trap -- action COND`
+  | setopt (name : List Char) (on : Bool)           -- `set -o name` / `set +o name`
+  | fnattr (name : List Char)                       -- `typeset -fr [--] name`
+  deriving DecidableEq, Repr
+
+/-- `evalDeclLine` from the fields on: options / `--` / operand parsed, operand split at the first `=` -/
+def evalDeclArgs (builtin : String) (fields : List (List Char)) : Option Var :=
+  (parseDeclArgs fields []).bind fun po =>
+    if !(po.1.all fun c => c = 'r' || c = 'x') then none
+    else match po.2 with
+      | [w] =>
+        let nv : List Char × VarVal := match splitEq w with
+          | some (n, v) => (n, .scalar v)
+          | none => (w, .none)
+        some { name := nv.1, value := nv.2,
+               exported := po.1.contains 'x' || builtin = "export",
+               readonly := po.1.contains 'r' || builtin = "readonly" }
+      | _ => none
+
+def fvalToVarVal : FVal → VarVal
+  | .scalar s => .scalar s
+  | .array vs => .array vs
+
+/-- the utilities whose operands are `name[=value]` declarations -/
+def declBuiltins : List String := ["typeset", "export", "readonly"]
+
+/-- What a fresh shell does with one command of a listing (the commands the listing built-ins print). -/
+def evalCmd (c : Cmd) : Option (List Effect) :=
+  match c.fields with
+  | [] => some (c.assigns.map fun a => .assign a.1 (fvalToVarVal a.2))
+  | f :: args =>
+    if !c.assigns.isEmpty then none
+    else match declBuiltins.find? (·.toList = f) with
+      | some b =>
+        match parseDeclArgs args [] with
+        | some (o, ops) =>
+          if o = ['f', 'r'] && b = "typeset" then
+            match ops with
+            | [n] => some [.fnattr n]
+            | _ => none
+          else (evalDeclArgs b args).map fun v => [.declare b v]
+        | none => none
+      | none =>
+        if f = "alias".toList then
+          match args with
+          | [d, w] => if d = "--".toList then (splitEq w).map fun p => [.alias p.1 p.2] else none
+          | _ => none
+        else if f = "trap".toList then
+          match args with
+          | [d, a, cnd] => if d = "--".toList then some [.trap (String.ofList cnd) a] else none
+          | _ => none
+        else if f = "set".toList then
+          match args with
+          | [o, n] =>
+            if o = "-o".toList then some [.setopt n true]
+            else if o = "+o".toList then some [.setopt n false] else none
+          | _ => none
+        else none
+
+/-- Evaluating a whole text: read its commands (`scriptCmds`: tokens, newline-separated simple commands,
+    fields), then the effect of each. -/
+def evalScript (text : List Char) : Option (List Effect) :=
+  (scriptCmds text).bind fun cs => (cs.mapM evalCmd).map List.flatten
+
+/-- `alias` prints entries, not commands; the harness (and a user) gives each back as `alias -- <entry>` -/
+def aliasReScript (as : List (List Char × List Char)) : List Char :=
+  (as.map fun a => "alias -- ".toList ++ printAlias a).flatten
+
+/-- the effects the whole-text evaluation of each listing of state `s` must have -/
+def expectedTypeset (s : State) : List Effect :=
+  ((sortBy (·.name) s.vars).filter (!·.name.contains '=')).flatMap fun v =>
+    match v.value with
+    | .array vs => [Effect.assign v.name (.array vs)]
+        ++ (if v.readonly || v.exported then [.declare "typeset" { v with value := .none }] else [])
+    | _ => [.declare "typeset" v]
+
+def expectedSet (s : State) : List Effect :=
+  ((sortBy (·.name) (s.vars.filter (isName ·.name))).filter (·.value ≠ .none)).map fun v => .assign v.name v.value
+
+def expectedTrap (s : State) : List Effect :=
+  condOrder.filterMap fun c => (s.trapShown c).map fun t => .trap t.1 t.2
+
+def expectedSetO (s : State) : List Effect :=
+  let tbl := Generated.OptionTable.options
+  let pn := Generated.OptionTable.portableName
+  let pOn := s.optOn pn (((tbl.find? (·.1 = pn)).map (·.2.2)).getD false)
+  [Effect.setopt pn false]
+    ++ ((tbl.filter (·.1 ≠ pn)).filter (·.2.1)).map (fun o => .setopt o.1 (s.optOn o.1 o.2.2))
+    ++ (if pOn then [.setopt pn true] else [])
+
+/-- Spec verdict on the whole TEXT of each listing: evaluated as a script it has exactly the effects that
+    recreate the state (`alias`: outside the known cross-bracket case) -/
+def textVerdict (s : State) : String :=
+  if evalScript (listTypeset s) != some (expectedTypeset s) then "FAIL:Vt:whole-listing-does-not-recreate"
+  else if evalScript (listSet s) != some (expectedSet s) then "FAIL:St:whole-listing-does-not-recreate"
+  else if evalScript (listTrap s) != some (expectedTrap s) then "FAIL:Tt:whole-listing-does-not-recreate"
+  else if evalScript (listSetO s) != some (expectedSetO s) then "FAIL:Ot:whole-listing-does-not-recreate"
+  else if evalScript (listFnAttr s) != some (((sortBy (·.1) s.fns).filter (·.2)).map fun f => .fnattr f.1) then
+    "FAIL:Ft:whole-listing-does-not-recreate"
+  else "ok"
+
 /-! ### listings with operands, `trap -p`, `set -o`, `umask -S` -/
 
 /-- `alias -- n1 n2 …` with the names in descending order -/
@@ -528,6 +635,6 @@ def runL (ops : List String) : String :=
   | none => "bad-case\t-"
   | some s =>
     let e (l : List Char) := encChars l
-    s!"A={e (listAlias s)} V={e (listTypeset s)} X={e (listExport s)} R={e (listReadonly s)} S={e (listSet s)} T={e (listTrap s)} U={e (listUmask s)} O={e (listSetO s)} Ao={e (listAliasOperands s)} Vo={e (listTypesetOperands s)} Tc={e (listTrapP s)} Oh={e (listSetOHuman s)} Us={e (listUmaskS s)} Ts={e (listTrap s.enterSubshell)} Tk={e (listTrap s.enterSubshell)} Tq={e (listTrap s.enterSubshell)} As={e (listAlias s)} Vs={e (listTypeset s)} Os={e (listSetO s)} Fa={e (listFnAttr s)}\t{stateVerdict s}"
+    s!"A={e (listAlias s)} V={e (listTypeset s)} X={e (listExport s)} R={e (listReadonly s)} S={e (listSet s)} T={e (listTrap s)} U={e (listUmask s)} O={e (listSetO s)} Ao={e (listAliasOperands s)} Vo={e (listTypesetOperands s)} Tc={e (listTrapP s)} Oh={e (listSetOHuman s)} Us={e (listUmaskS s)} Ts={e (listTrap s.enterSubshell)} Tk={e (listTrap s.enterSubshell)} Tq={e (listTrap s.enterSubshell)} As={e (listAlias s)} Vs={e (listTypeset s)} Os={e (listSetO s)} Fa={e (listFnAttr s)}\t{if stateVerdict s != "ok" then stateVerdict s else textVerdict s}"
 
 end YashModel.Quote.Listing
